@@ -225,8 +225,8 @@ def make_setter_harness(symbol: str, op: str, npairs: int, value_kinds=("finite"
             flat = [x for p in pairs for x in p]
             ok, res = call(fn, *flat)
             if npairs == 2 and pairs[0][0] == pairs[1][0]:
-                # later positional pair overwrites the earlier one before anything is applied
-                pairs = [pairs[1]]
+                # the same key in two positional pairs: the documented behaviour is a refusal (KeyError) with nothing applied
+                refused_early = True
         elif form == "odd":
             ok, res = call(fn, pairs[0][0])
             refused_early = True
